@@ -1,4 +1,10 @@
 //@include prelude/header.rs
+// Unit handlers_nav2: call_hierarchy.rs handle_outgoing_calls + find_parameter_ranges and inlay_hint.rs
+// handle_inlay_hint under contract (same method as unit handlers_nav; split off because these two compose with the
+// per-file view / resolve_fixture_for_file contracts of unit available: prelude/avail_spec.rs, avail_l2.rs).
+//   L1: prelude/handlers2_spec.rs (op_handle_outgoing, param_ranges, inlay_post);  L2: prelude/handlers2_l2.rs.
+// Callees: resolve_fixture_for_file = //@stub available; get_available_fixtures = ASSUMED composition of the contracts
+// proved in units memo and available; parameter_has_annotation, str::find, str::lines, format! = uninterpreted.
 // the handler files say `use tower_lsp_server::ls_types::*;` -- tower-lsp-server re-exports the crate ls_types
 use ls_types::*;
 // the handler code spells the scope type `crate::fixtures::types::FixtureScope`
@@ -45,7 +51,6 @@ impl FixtureDatabase {
     /// the part of the database compute_available_fixtures depends on (as in unit available)
     pub open spec fn avv(&self) -> AvV { AvV { defs: self.defs(), td: self.text_dom(), imp: imp_of(self.file_cache.m(), self.defs()) } }
 
-    // callee contract assumed in unit available too (mod.rs get_canonical_path): needed by the stub's signature only
 //@stub available resolve_fixture_for_file
 
     // ASSUMED composition of two proved contracts: unit memo proves get_available_fixtures(file) returns what
